@@ -309,7 +309,7 @@ pub fn c20_eval(bytes: &[u8], uni: &'static str, acc: &mut Acc) {
     }
 }
 
-const NOPS: usize = 8;
+const NOPS: usize = 9;
 
 /// API-built documents: placeholders left by mutable indexing, items converted between kinds, nested containers
 fn api_docs(rep: &mut Report) {
@@ -364,10 +364,24 @@ fn api_docs(rep: &mut Report) {
                         doc["e1"] = toml_edit::value(InlineTable::new());
                         doc["e2"] = Item::ArrayOfTables(ArrayOfTables::new());
                     }
-                    _ => {
+                    7 => {
                         // vacate a table entry in place
                         if doc.contains_key(k) {
                             let _ = std::mem::take(&mut doc[k]);
+                        }
+                    }
+                    _ => {
+                        // a placeholder that is NOT the last entry: probe one key, then insert others after it - in the
+                        // node under k if that is table-like (standard or inline), and in its first table-like child
+                        if doc.get(k).map(|i| i.is_table_like()).unwrap_or(false) {
+                            let _ = &mut doc[k]["p"];
+                            doc[k]["q"] = toml_edit::value(5);
+                            doc[k]["r"] = toml_edit::value(toml_edit::Array::from_iter([6, 7]));
+                            let child = doc[k].as_table_like().and_then(|t| t.iter().find(|(_, v)| v.is_table_like()).map(|(c, _)| c.to_string()));
+                            if let Some(c) = child {
+                                let _ = &mut doc[k][c.as_str()]["p"];
+                                doc[k][c.as_str()]["q"] = toml_edit::value(8);
+                            }
                         }
                     }
                 });
@@ -388,7 +402,7 @@ fn api_docs(rep: &mut Report) {
             }
         }
     }
-    rep.absorb("U-api", "5 base documents x every 3-step history over {noop, auto-vivify, assign, insert array of tables, remove+make_value+reinsert, vacate first array / array-of-tables slot, insert empty containers, vacate table entry}", total, true, t0, acc);
+    rep.absorb("U-api", "5 base documents x every 3-step history over {noop, auto-vivify, assign, insert array of tables, remove+make_value+reinsert, vacate first array / array-of-tables slot, insert empty containers, vacate table entry, probe a key and insert others after the placeholder}", total, true, t0, acc);
 }
 
 pub fn c20(tier: Tier) -> i32 {
